@@ -59,6 +59,11 @@ HAND = [
     "template T() { signal input in; signal output out; component c = Inner(2); var hot = 0; var cold = 1 - hot; c.in[hot] <== in; c.in[cold] <== 0; out <== c.out[0] + c.out[1]; }",
     "template T(n) { signal input in; signal output out; component cs[2]; var k = 1; var j = 0; cs[0] = Inner(2); cs[1] = Inner(2); cs[k].in[j] <== in; out <== cs[k].out[j]; }",
     "template T() { signal input in; signal output out; component c = Inner(2); var sel = 1; var z = 0; c.in[0] <== in; c.in[1] <== in; out <-- c.out[sel] + z; out === c.out[sel]; }",
+    # taint cycles of three and more variables whose exit is a later local (seeded C09 m8: a depth-first search with a cache of negative
+    # answers that is wrong for such cycles, for some hash orders): variables updated twice per iteration, a Fibonacci rotation
+    "template T(n) { signal input in; signal output out[12]; var acc0 = 1; var acc1 = 2; var acc2 = 3; var acc3 = 4; var acc4 = 5; var acc5 = 6; var acc6 = 7; var acc7 = 8; var acc8 = 9; var acc9 = 10; var acc10 = 11; var acc11 = 12; for (var i = 0; i < n; i++) { acc0 = acc0 + i; acc0 = acc0 * 3; acc1 = acc1 + i; acc1 = acc1 * 3; acc2 = acc2 + i; acc2 = acc2 * 3; acc3 = acc3 + i; acc3 = acc3 * 3; acc4 = acc4 + i; acc4 = acc4 * 3; acc5 = acc5 + i; acc5 = acc5 * 3; acc6 = acc6 + i; acc6 = acc6 * 3; acc7 = acc7 + i; acc7 = acc7 * 3; acc8 = acc8 + i; acc8 = acc8 * 3; acc9 = acc9 + i; acc9 = acc9 * 3; acc10 = acc10 + i; acc10 = acc10 * 3; acc11 = acc11 + i; acc11 = acc11 * 3; } var t0 = acc0 + 1; out[0] <== in * t0; var t1 = acc1 + 1; out[1] <== in * t1; var t2 = acc2 + 1; out[2] <== in * t2; var t3 = acc3 + 1; out[3] <== in * t3; var t4 = acc4 + 1; out[4] <== in * t4; var t5 = acc5 + 1; out[5] <== in * t5; var t6 = acc6 + 1; out[6] <== in * t6; var t7 = acc7 + 1; out[7] <== in * t7; var t8 = acc8 + 1; out[8] <== in * t8; var t9 = acc9 + 1; out[9] <== in * t9; var t10 = acc10 + 1; out[10] <== in * t10; var t11 = acc11 + 1; out[11] <== in * t11; }",
+    "template T(n) { signal input in; signal output out; var a = 0; var b = 1; var tmp = 0; for (var i = 0; i < n; i++) { tmp = a + b; a = b; b = tmp; } var total = a + 1; out <== in * total; }",
+    "function f(n) { var a = 0; var b = 1; var c = 2; var tmp = 0; for (var i = 0; i < n; i++) { tmp = a + b; a = b; b = c; c = tmp; } var total = a + 1; return total; }",
 ]
 
 
